@@ -182,8 +182,15 @@ def genHistory (len : Nat) (period : Nat) (onlyValid : Bool) : Gen History := do
       if pids.length > 1 then
         let pid ← pick pids
         if pid != pcr then
-          ops := ops ++ [.remove pid]
-          pids := pids.filter (· != pid)
+          if (← chance 1 2) then
+            -- remove, (emit tables), add the same PID again, write: the PID's continuity counter must run on
+            let withTables ← chance 2 3
+            let es ← genES pid false
+            let d ← genData pid false
+            ops := ops ++ [MuxOp.remove pid] ++ (if withTables then [MuxOp.tables] else []) ++ [MuxOp.add es, MuxOp.data d]
+          else
+            ops := ops ++ [.remove pid]
+            pids := pids.filter (· != pid)
       else if !onlyValid then ops := ops ++ [.remove 0x333]
     else if k = 15 then
       if !pids.isEmpty then
@@ -232,7 +239,17 @@ def genHistory (len : Nat) (period : Nat) (onlyValid : Bool) : Gen History := do
           let af : PacketAdaptationField := { hasTransportPrivateData := true, transportPrivateData := priv, transportPrivateDataLength := n }
           ops := ops ++ [.data { d with adaptationField := some af }]
     else
-      if !onlyValid && !pids.isEmpty then
+      if !onlyValid && !pids.isEmpty && (← chance 1 3) then
+        -- a PES header that can never fit one packet (180 bytes of extension 2 data): rejected before anything is
+        -- written, also when tables are due (random access indicator on the PCR PID forces them)
+        let d ← genData pcr true 20
+        let ext2 ← randBytes 180
+        let oh := d.pes.header.optionalHeader.getD {}
+        let oh' := { oh with hasExtension := true, hasExtension2 := true, extension2Data := ext2, extension2Length := 180 }
+        let af := { (d.adaptationField.getD {}) with randomAccessIndicator := true }
+        let sid := if hasPESOptionalHeader d.pes.header.streamID then d.pes.header.streamID else 0xe0
+        ops := ops ++ [.data { d with adaptationField := some af, pes := { d.pes with header := { d.pes.header with optionalHeader := some oh', streamID := sid } } }]
+      else if !onlyValid && !pids.isEmpty then
         -- an adaptation field that leaves no room for the PES header / does not fit at all
         let pid ← pick pids
         let d ← genData pid true 176
@@ -342,6 +359,17 @@ def runC16mux (t : Tier) : Emit Unit := do
     let h ← liftGen (genHistory 15 period true)
     emit "C16" { op := "mux", args := [("period", jnat h.period), ("ops", jarr (h.ops.map opJson)), ("view", jstr "payload")],
                  model := "payload-unchanged=true", spec := some "payload-unchanged=true", tag := "muxer-keeps-payload" }
+    -- WritePacket with payloads shorter than, equal to and longer than the room in the packet; the caller's slices sit in
+    -- larger buffers (the harness gives every payload 64 bytes of spare capacity and checks those too)
+    let mut pops : List MuxOp := []
+    for _ in [0:8] do
+      let p ← liftGen genPacket
+      let cut ← liftGen (randBelow 3)
+      let extra ← liftGen (randBytes 10)
+      let p' : Packet := if cut = 0 then p else if cut = 1 then { p with payload := p.payload.take (p.payload.length / 2) } else { p with payload := p.payload ++ extra }
+      pops := pops ++ [.packet p']
+    emit "C16" { op := "mux", args := [("period", jnat 40), ("ops", jarr (pops.map opJson)), ("view", jstr "payload")],
+                 model := "payload-unchanged=true", spec := some "payload-unchanged=true", tag := "muxer-keeps-packet-payload" }
   for _ in [0:(if t.quick then 1 else 6)] do
     let mut subs : List String := []
     for j in [0:4] do
